@@ -223,8 +223,13 @@ func (g *adaptive) step() bool {
 		// put into the dictionary that holds it, or copied over from another
 		// dictionary), and executed again: every execution looks the name up
 		// anew.
-		name := []string{"w1", "w2", "a"}[g.draw(3, "restorename")]
+		name := []string{"w1", "w2", "a", "count", "dup", "true", "StandardEncoding", "currentdict"}[g.draw(8, "restorename")]
 		toks := []psref.Tok{psref.TL(name), g.genInt(), psref.TX("def"), psref.TX(name)}
+		if g.draw(2, "restorenodef") == 0 {
+			// no def at all: the name (possibly one the system dictionary
+			// defines) gets its value by put / copy only
+			toks = nil
+		}
 		switch g.draw(3, "restorehow") {
 		case 0:
 			toks = append(toks, psref.TX("currentdict"), psref.TL(name), g.genInt(), psref.TX("put"))
